@@ -25,7 +25,7 @@
     (C14_cancel_reaches_done); that the Go scheduler IS fair is not. *)
 From Coq Require Import Arith Bool List String Ascii ZArith.
 From CanVerif Require Import Runner.Lts Runner.RunModel Runner.LockDiscipline Runner.Protocol Runner.RunLts Runner.RunProofs.
-From CanVerif Require Import Dbc.Ast Runner.Program Runner.ProgramProofs Runner.ProgramLts Runner.ProgramLtsProofs Runner.ProgramLoop Runner.ProgramLoopProofs.
+From CanVerif Require Import Dbc.Ast Runner.Program Runner.ProgramProofs Runner.ProgramLts Runner.ProgramLtsProofs Runner.ProgramLoop Runner.ProgramLoopProofs Runner.ProgramRun Runner.ProgramRunProofs.
 Import ListNotations.
 
 (** I4 exactly-once: accepted + ticks_taken - transmitted - aborted is 1 inside transmit, else 0 *)
@@ -522,4 +522,60 @@ Example C14_transmitter_loop_nonvacuous :
     = Some (Some (Accept 2 7), mkT FMain 16 true 0 false false) /\
   tnext true true 2 (init_tx true) (mkT (FTx false) 15 true 0 false false) true false 0 0
     = Some (None, mkT FMain 17 true 0 false false).
+Proof. vm_compute. repeat split; reflexivity. Qed.
+
+(** WHOLE EXECUTIONS.  [own t ev] = ev is a step of thread t itself; any other event of the alphabet is the environment's
+    (other runner threads, application Lock/Unlock/SetFlag/WakeSend/Offer/Mutate, the ticker's Tick, Cancel).  An
+    environment transition leaves thread t's record unchanged in every field [sim] looks at (pc, armed, cyclic, gotwake,
+    last-read flag) ... *)
+Theorem C14_environment_keeps_sim : forall t ev s s' x,
+  own t ev = false -> step_fn s ev = Some s' -> th s t = TTx x ->
+  exists x', th s' t = TTx x' /\
+    (t_pc x' = t_pc x /\ t_armed x' = t_armed x /\ t_cyclic x' = t_cyclic x /\ t_gotwake x' = t_gotwake x /\ t_last x' = t_last x).
+Proof. exact env_keeps_sim. Qed.
+Print Assumptions C14_environment_keeps_sim.
+
+(** ... hence, by induction over the trace: ANY interleaving [texec] of silent program steps, visible program steps (taken
+    when the environment enables them) and environment transitions, started in a configuration related to the LTS state by
+    [sim], is a run of the LTS ([run s tr = Some s2]) and ends related by [sim] again; from a reachable state it ends in a
+    reachable state - so every invariant of Protocol.v / LockDiscipline.v holds along executions of the linked programs *)
+Theorem C14_transmitter_program_execution_refines_lts : forall dc dt t c s tr c2 s2,
+  texec dc dt t c s tr c2 s2 -> forall x, th s t = TTx x -> sim dc dt c x ->
+  run s tr = Some s2 /\ exists x2, th s2 t = TTx x2 /\ sim dc dt c2 x2.
+Proof. exact transmitter_execution_refines. Qed.
+Print Assumptions C14_transmitter_program_execution_refines_lts.
+
+Theorem C14_transmitter_program_execution_reachable : forall cfg dc dt t c s tr c2 s2 x,
+  reachable cfg s -> texec dc dt t c s tr c2 s2 -> th s t = TTx x -> sim dc dt c x -> reachable cfg s2.
+Proof. exact transmitter_execution_reachable. Qed.
+Print Assumptions C14_transmitter_program_execution_reachable.
+
+(** Run's own action program against the Run-level LTS (Runner/ProgramRun.v): [run_next q c o] = the step of p_Run from
+    configuration c = (pc, ok, inside Connect?, g.Go(go3) calls so far); [rabs] maps pcs to QStart .. QReturned; [rsim]
+    additionally records, after g.Wait() returned, that the group is empty and err = nil iff no worker failed;
+    [renabled]: g.Wait() (node 9) is passed only when every goroutine of the group has returned.  Silent steps keep [rsim],
+    visible steps (QConnectCall, QConnectRet, QSpawn (1 + transmitters) when the range loop is left, QReturn) are [qstep]
+    transitions into [rsim].  The goroutine bodies show QClose / QWorkerRet.  Granularity difference (not a behavioural
+    disagreement): the LTS starts the group by one QSpawn, the program by separate g.Go nodes 4, 5, 8. *)
+Theorem C14_run_program_refines_lts : forall q c o e c',
+  run_next q c o = Some (e, c') -> rsim c q -> renabled c q ->
+  match e with
+  | None => rsim c' q
+  | Some ev => exists q', qstep q ev = Some q' /\ rsim c' q'
+  end.
+Proof. exact run_program_refines. Qed.
+Print Assumptions C14_run_program_refines_lts.
+
+Theorem C14_run_goroutine_bodies :
+  go1_next 0 = Some (None, 1) /\ go1_next 1 = Some (Some QClose, 2) /\
+  (forall o, worker_next p_Run_go2 0 o = Some (None, 1) /\ worker_next p_Run_go2 1 o = Some (Some (QWorkerRet o), 2)) /\
+  (forall o, worker_next p_Run_go3 0 o = Some (None, 1) /\ worker_next p_Run_go3 1 o = Some (Some (QWorkerRet o), 2)).
+Proof. exact goroutine_bodies. Qed.
+Print Assumptions C14_run_goroutine_bodies.
+
+Example C14_run_program_nonvacuous :
+  rsim (mkR 0 true 0 0) qinit /\
+  run_next qinit (mkR 0 true 0 0) true = Some (Some QConnectCall, mkR 0 true 1 0) /\
+  run_next qinit (mkR 6 true 0 2) false = Some (Some (QSpawn 3), mkR 9 true 0 2) /\
+  run_next qinit (mkR 13 false 0 2) true = Some (Some (QReturn false), mkR 15 false 0 2).
 Proof. vm_compute. repeat split; reflexivity. Qed.
